@@ -3670,7 +3670,11 @@ handle_response(coap_context_t *context, coap_session_t *session,
       }
       session->last_con_mid = rcvd->mid;
     } else if (rcvd->type == COAP_MESSAGE_ACK) {
-      if (rcvd->mid == session->last_ack_mid) {
+      /*
+       * An ACK that matches a message still waiting for its acknowledgement
+       * (sent) is the first one for it, whatever mid an earlier ACK carried.
+       */
+      if (rcvd->mid == session->last_ack_mid && !sent) {
         /* Duplicate response */
         return;
       }
